@@ -166,6 +166,7 @@ struct IoSlot {
   bool is_write = false;
   unifex::inplace_stop_source src;
   alignas(16) unsigned char storage[sizeof(ReadOp) > sizeof(WriteOp) ? sizeof(ReadOp) : sizeof(WriteOp)];
+  unsigned char snapshot[sizeof(ReadOp) > sizeof(WriteOp) ? sizeof(ReadOp) : sizeof(WriteOp)];   // the bytes at completion
   size_t op_size = 0;
   bool constructed = false;
   unsigned char* buf = nullptr;     // the buffer handed to the operation
@@ -194,6 +195,8 @@ struct IoWorld {
   unsigned char next_in = 1;              // next byte value expected out of the pipe
   bool write_mode;
 
+  // expected_completions > 0: the last expected completion tells the loop to stop (on its own thread);
+  // 0: the scenario stops the loop itself (stop_loop) after a final fence
   explicit IoWorld(int expected_completions, bool write_mode_ = false) : expected(expected_completions), write_mode(write_mode_) {
     rtio::reset();
     int fd[2];
@@ -317,7 +320,9 @@ void IoSlot::complete(Outcome o, long v, int e) {
   if (is_write) wop().~WriteOp(); else rop().~ReadOp();
   if (rtio::registrations_into(storage, op_size) != 0)
     rt::fail("op%d completed but an epoll registration still points to it (stale kernel-side reference)", idx);
-  memset(storage, POISON, op_size);
+  // the storage is NOT overwritten (library code that wrongly still runs on it then reaches the
+  // monitors instead of crashing); any later write is found by comparing with this snapshot
+  memcpy(snapshot, storage, op_size);
   rtio::mark_dead(storage, op_size);
   memset(buf, POISON, buf_len);
   switch (o) {
@@ -334,7 +339,7 @@ void IoSlot::complete(Outcome o, long v, int e) {
 void IoSlot::check_untouched() {
   if (!constructed) return;
   if (completions == 0) { rt::fail("op%d never completed", idx); return; }
-  for (size_t k = 0; k < op_size; ++k) if (storage[k] != POISON) { rt::fail("op%d: operation state was written after the operation completed", idx); break; }
+  if (memcmp(snapshot, storage, op_size) != 0) rt::fail("op%d: operation state was written after the operation completed", idx);
   for (size_t k = 0; k < buf_len; ++k) if (buf[k] != POISON) { rt::fail("op%d: buffer was accessed after the operation completed", idx); break; }
   delete[] buf; buf = nullptr;
 }
@@ -416,7 +421,7 @@ SCENARIO(rd_cancel_parked) {
 
 // data and cancellation race
 SCENARIO(rd_cancel_race) {
-  IoWorld w(1);
+  IoWorld w(0);
   w.start_read(0, 8);
   int t2 = rt::spawn([&] { w.cancel(0); });
   w.env_write(5);
@@ -425,6 +430,8 @@ SCENARIO(rd_cancel_race) {
   IoSlot& s = w.slot[0];
   if (s.outcome == O_VALUE) { if (s.value != 5) rt::fail("read raced with cancel completed with a wrong byte count"); }
   else if (s.outcome != O_DONE) rt::fail("read raced with cancel completed with an error");
+  w.fence();               // whatever the cancellation queued on the context has run now
+  w.c.stop_loop(false);
   w.finish();
   w.env_drain();
   if (w.op_bytes + w.drained != 5) rt::fail("bytes lost or duplicated: reported + left in the pipe != written");
